@@ -10,7 +10,49 @@ of the enclosing block (top level: `elements.object`; in an object: `schemas.obj
 namespace J5V.Walker
 open J5V.Bcl
 
+/-- the name tag of a declaration block, into the property `name` (slot 0) of the fresh declaration -/
+theorem declHead_exact {kw : Str} {sD : Schema} {specD : BlockSpec} (d : Addr) {isOpt pres : Bool}
+    (hname : specD.name = some ⟨wName, none, none, isOpt, false⟩) (hts : specD.typeSelect = none)
+    (hna : aliasLookup wName specD.aliases = none)
+    (hpiN : propInfo j5Env sD wName = some (0, none, .scalar (.scalar .string) pres))
+    {tD : List Bool} {vsD : List Node} (hfreshD : freshMsg sD = .msg tD vsD)
+    (ht0 : tD[0]? = some false) (hv0 : vsD[0]? = some .absent)
+    {name : Str} (hid : isIdent name = true) (isOpen : Bool) :
+    Exact (doBlockHead j5Env (Scope.newChild (cfOf sD specD d)) specD
+      ⟨refOf [kw], [nameTag name], [], none, isOpen, src0⟩) d (freshMsg sD)
+      (Scope.newChild (cfOf sD specD d)) (.msg (tD.set 0 true) (vsD.set 0 (storeNode pres (.str name)))) := by
+  refine doBlockHead_exact (spec2 := specD) rfl
+    (walkTags_name hname hts (applyNameTag_exact (checkBang_none _ _ rfl) ?_)) (walkQualifiers_nil _ _ _ _)
+  rw [hfreshD]
+  exact setAttr_direct (n := wName) (pos := none) (cur := .absent) (v := .str name) rfl
+    (findBlock_prop' hna (propInfo_hasProperty hpiN)) hpiN ht0 hv0 (.inl rfl) (asArray_tag _)
+    (by simp only [scalarFromAST, nameTag, asString_tagRef_single (isAscii_of_isIdent hid)]; rfl)
+
 /-- a named declaration block appended to an array of oneofs, the member `member` selected -/
+theorem memberDecl_appends' {sc : Scope} {kw : Str} (hkw : isAscii kw = true)
+    {s : Schema} {spec : BlockSpec} {c : Addr} {arr member : Str} {i k : Nat} {sE sD : Schema}
+    {specE specD : BlockSpec} {og : Option (Str × List Nat)} {tf : List Bool} {vf : List Node}
+    (hfb : findBlock kw sc.blockSet = some (cfOf s spec c, [arr, member]))
+    (hpiA : propInfo j5Env s arr = some (i, none, .arrayOfContainer sE))
+    (hpiM : propInfo j5Env sE member = some (k, og, .container sD))
+    (hspecE : ∀ c, specOf j5Env ⟨c, .msg sE⟩ = .ok specE) (hspecD : ∀ c, specOf j5Env ⟨c, .msg sD⟩ = .ok specD)
+    (hfresh : freshMsg sE = .msg tf vf) (htf : tf[k]? = some false) (hvf : vf[k]? = some .absent)
+    (hunpop : vf.all (fun v => !v.populated) = true) {isOpt pres : Bool}
+    (hname : specD.name = some ⟨wName, none, none, isOpt, false⟩) (hts : specD.typeSelect = none)
+    (hna : aliasLookup wName specD.aliases = none)
+    (hpiN : propInfo j5Env sD wName = some (0, none, .scalar (.scalar .string) pres))
+    {tD : List Bool} {vsD : List Node} (hfreshD : freshMsg sD = .msg tD vsD)
+    (ht0 : tD[0]? = some false) (hv0 : vsD[0]? = some .absent)
+    {name : Str} (hid : isIdent name = true) {body : List Statement} {final : Node}
+    (hbody : ∀ d, Exact (doBody j5Env (Scope.newChild (cfOf sD specD d)) body) d
+      (.msg (tD.set 0 true) (vsD.set 0 (storeNode pres (.str name)))) () final) :
+    Appends j5Env sc c i (blockStmt kw [nameTag name] [] true body)
+      (.msg (tf.set k true) (vf.set k final)) := by
+  intro xs t vs ht hv
+  exact arrayMemberBlock_exact hkw hfb hpiA hpiM (hspecE _) (hspecD _) ht hv hfresh htf hvf hunpop
+    (declHead_exact _ hname hts hna hpiN hfreshD ht0 hv0 hid true) (hbody _)
+
+/-- `memberDecl_appends'` for a name without presence -/
 theorem memberDecl_appends {sc : Scope} {kw : Str} (hkw : isAscii kw = true)
     {s : Schema} {spec : BlockSpec} {c : Addr} {arr member : Str} {i k : Nat} {sE sD : Schema}
     {specE specD : BlockSpec} {og : Option (Str × List Nat)} {tf : List Bool} {vf : List Node}
@@ -29,21 +71,28 @@ theorem memberDecl_appends {sc : Scope} {kw : Str} (hkw : isAscii kw = true)
     (hbody : ∀ d, Exact (doBody j5Env (Scope.newChild (cfOf sD specD d)) body) d
       (.msg (tD.set 0 true) (vsD.set 0 (sStr name))) () final) :
     Appends j5Env sc c i (blockStmt kw [nameTag name] [] true body)
-      (.msg (tf.set k true) (vf.set k final)) := by
+      (.msg (tf.set k true) (vf.set k final)) :=
+  memberDecl_appends' hkw hfb hpiA hpiM hspecE hspecD hfresh htf hvf hunpop hname hts hna hpiN hfreshD ht0 hv0 hid
+    (fun d => by rw [storeNode_str]; exact hbody d)
+
+/-- a named declaration block `kw NAME { body }` appended to the array-of-containers property `arr` -/
+theorem arrayDecl_appends {sc : Scope} {kw : Str} (hkw : isAscii kw = true)
+    {s : Schema} {spec : BlockSpec} {c : Addr} {arr : Str} {i : Nat} {sD : Schema} {specD : BlockSpec}
+    (hfb : findBlock kw sc.blockSet = some (cfOf s spec c, [arr]))
+    (hpiA : propInfo j5Env s arr = some (i, none, .arrayOfContainer sD))
+    (hspecD : ∀ c, specOf j5Env ⟨c, .msg sD⟩ = .ok specD) {isOpt pres : Bool}
+    (hname : specD.name = some ⟨wName, none, none, isOpt, false⟩) (hts : specD.typeSelect = none)
+    (hna : aliasLookup wName specD.aliases = none)
+    (hpiN : propInfo j5Env sD wName = some (0, none, .scalar (.scalar .string) pres))
+    {tD : List Bool} {vsD : List Node} (hfreshD : freshMsg sD = .msg tD vsD)
+    (ht0 : tD[0]? = some false) (hv0 : vsD[0]? = some .absent)
+    {name : Str} (hid : isIdent name = true) {isOpen : Bool} {body : List Statement} {final : Node}
+    (hbody : ∀ d, Exact (doBody j5Env (Scope.newChild (cfOf sD specD d)) body) d
+      (.msg (tD.set 0 true) (vsD.set 0 (storeNode pres (.str name)))) () final) :
+    Appends j5Env sc c i (blockStmt kw [nameTag name] [] isOpen body) final := by
   intro xs t vs ht hv
-  have hhead : Exact (doBlockHead j5Env (Scope.newChild (cfOf sD specD (c ++ [i, xs.length, k]))) specD
-      ⟨refOf [kw], [nameTag name], [], none, true, src0⟩) (c ++ [i, xs.length, k]) (freshMsg sD)
-      (Scope.newChild (cfOf sD specD (c ++ [i, xs.length, k])))
-      (.msg (tD.set 0 true) (vsD.set 0 (sStr name))) := by
-    refine doBlockHead_exact (spec2 := specD) rfl
-      (walkTags_name hname hts (applyNameTag_exact (checkBang_none _ _ rfl) ?_)) (walkQualifiers_nil _ _ _ _)
-    rw [hfreshD]
-    refine (setAttr_direct (n := wName) (pos := none) (cur := .absent) (v := .str name) rfl
-      (findBlock_prop' hna (propInfo_hasProperty hpiN)) hpiN ht0 hv0 (.inl rfl) (asArray_tag _)
-      (by simp only [scalarFromAST, nameTag, asString_tagRef_single (isAscii_of_isIdent hid)]; rfl)).conv ?_
-    rw [storeNode_str]
-  exact arrayMemberBlock_exact hkw hfb hpiA hpiM (hspecE _) (hspecD _) ht hv hfresh htf hvf hunpop hhead
-    (hbody _)
+  exact arrayBlock_exact hkw hfb hpiA (hspecD _) ht hv
+    (declHead_exact _ hname hts hna hpiN hfreshD ht0 hv0 hid isOpen) (hbody _)
 
 /-! ## Tables -/
 
